@@ -66,7 +66,7 @@ func kindAccessorAgreement(r *core.Run) {
 					if len(x.Results) == 2 && core.IsNilIdent(gpk.TypesInfo, x.Results[1]) {
 						ast.Inspect(x.Results[0], func(m ast.Node) bool {
 							if c, ok := m.(*ast.CallExpr); ok {
-								if s, ok := c.Fun.(*ast.SelectorExpr); ok && core.ExprStr(s.X) == "val" {
+								if s, ok := c.Fun.(*ast.SelectorExpr); ok && strings.HasSuffix(core.TypeStr(gpk.TypesInfo.TypeOf(s.X)), "protoreflect.Value") {
 									acc[prefix] = s.Sel.Name
 								}
 							}
@@ -211,8 +211,9 @@ func reflectionGuards(r *core.Run) {
 			}},
 		{Rel: "lib/j5reflect", Func: "newFieldFactory", What: "a scalar schema whose kind differs from the proto field's kind is rejected",
 			Match: func(info *types.Info, ifs *ast.IfStmt, prev ast.Stmt) bool {
-				c := core.ExprStr(ifs.Cond)
-				return strings.Contains(c, "field.Kind() != st.Kind")
+				// <field descriptor>.Kind() != <scalar schema>.Kind, whatever the locals are called
+				c := core.NormExpr(info, ifs.Cond)
+				return strings.Contains(c, "‹FieldDescriptor›.Kind() != ‹*ScalarSchema›.Kind") || strings.Contains(c, "‹*ScalarSchema›.Kind != ‹FieldDescriptor›.Kind()")
 			}},
 		{Rel: "lib/j5reflect", Func: "newFieldFactory", What: "a well-known-type scalar on a field of another message type is rejected",
 			Match: func(info *types.Info, ifs *ast.IfStmt, prev ast.Stmt) bool {
